@@ -22,6 +22,10 @@ import (
 const (
 	initialBufferSize    = bytes.MinRead
 	maxRecycleBufferSize = 8 * 1024 * 1024 // if >8MiB, don't hold onto a buffer
+	// maxPreallocatedBytes caps how much is allocated up front for a message
+	// whose size a peer has announced (in an envelope or a Content-Length)
+	// but not yet sent: beyond this, buffers grow as the bytes arrive.
+	maxPreallocatedBytes = 64 * 1024
 )
 
 type bufferPool struct {
